@@ -1,6 +1,66 @@
 import YaegiVerif.Common.Sexp
-/- Line-protocol front end for C01 (glue). Placeholder until the property's model exists. -/
+import YaegiVerif.Model.Cfg
+/- Line-protocol front end for C01 (glue).
+   run FUEL STMT   → y=<normal|panic|fuel>:<v1,v2,…> g=<normal|panic|fuel>:<v1,v2,…> n=<instructions>
+   EXPR  = (lit n) | (var i) | (bin add|sub|mul|and|or|xor|quo|rem a b) | (neg a) | (cpl a)
+   BEXPR = (cmp eq|ne|lt|le|gt|ge a b) | (not a) | (land a b) | (lor a b)
+   STMT  = skip | brk | cont | (seq a b) | (assign i e) | (print e) | (ite c t e) | (loop c body post) -/
 namespace YaegiVerif.Driver.C01
-open YaegiVerif
-def handle (_args : List Sexp) : String := "unimplemented"
+open YaegiVerif YaegiVerif.Core
+
+partial def parseExpr : Sexp → Option Expr
+  | .list [.atom "lit", n] => n.int?.map (fun i => .lit (BitVec.ofInt 64 i))
+  | .list [.atom "var", i] => i.nat?.map .var
+  | .list [.atom "neg", a] => (parseExpr a).map .neg
+  | .list [.atom "cpl", a] => (parseExpr a).map .cpl
+  | .list [.atom "bin", .atom op, a, b] => do
+    let o ← match op with
+      | "add" => some BinOp.add | "sub" => some .sub | "mul" => some .mul | "and" => some .and
+      | "or" => some .or | "xor" => some .xor | "quo" => some .quo | "rem" => some .rem | _ => none
+    some (.bin o (← parseExpr a) (← parseExpr b))
+  | _ => none
+
+partial def parseB : Sexp → Option BExpr
+  | .list [.atom "cmp", .atom op, a, b] => do
+    let o ← match op with
+      | "eq" => some CmpOp.eq | "ne" => some .ne | "lt" => some .lt | "le" => some .le
+      | "gt" => some .gt | "ge" => some .ge | _ => none
+    some (.cmp o (← parseExpr a) (← parseExpr b))
+  | .list [.atom "not", a] => (parseB a).map .not
+  | .list [.atom "land", a, b] => do some (.land (← parseB a) (← parseB b))
+  | .list [.atom "lor", a, b] => do some (.lor (← parseB a) (← parseB b))
+  | _ => none
+
+partial def parseStmt : Sexp → Option Stmt
+  | .atom "skip" => some .skip
+  | .atom "brk" => some .brk
+  | .atom "cont" => some .cont
+  | .list [.atom "seq", a, b] => do some (.seq (← parseStmt a) (← parseStmt b))
+  | .list [.atom "assign", i, e] => do some (.assign (← i.nat?) (← parseExpr e))
+  | .list [.atom "print", e] => do some (.print (← parseExpr e))
+  | .list [.atom "ite", c, t, e] => do some (.ite (← parseB c) (← parseStmt t) (← parseStmt e))
+  | .list [.atom "loop", c, b, p] => do some (.loop (← parseB c) (← parseStmt b) (← parseStmt p))
+  | _ => none
+
+def showOut (vs : List Val) : String := ",".intercalate (vs.map fun v => toString v.toInt)
+
+def handle (args : List Sexp) : String :=
+  match args with
+  | [.atom "run", fuel, prog] =>
+    (match fuel.nat?, parseStmt prog with
+     | some f, some p =>
+       let st0 : St := { vars := fun _ => 0, out := [] }
+       let code := compileProg p
+       let y := match runFuel code f (.run 0 st0) with
+         | some (.run _ s) => "normal:" ++ showOut s.out
+         | some (.panicked s) => "panic:" ++ showOut s.out
+         | none => "fuel:"
+       let g := match exec f p st0 with
+         | some (.panic, s) => "panic:" ++ showOut s.out
+         | some (_, s) => "normal:" ++ showOut s.out
+         | none => "fuel:"
+       s!"y={y} g={g} n={code.length}"
+     | _, _ => "bad-op")
+  | _ => "bad-op"
+
 end YaegiVerif.Driver.C01
